@@ -15,7 +15,7 @@ func init() { register(&Check{ID: "C08", Race: true, Run: runC08}) }
 
 func genEvSliding(ref core.CaseRef, r *rand.Rand) *evCase {
 	c := &evCase{CaseRef: ref, Kind: "sliding"}
-	ss := pick(r, [][2]int64{{2000, 1000}, {3000, 1000}, {5000, 2000}, {1000, 1000}, {1000, 3000}, {4000, 1000}, {1000, 250}})
+	ss := pick(r, [][2]int64{{2000, 1000}, {3000, 1000}, {5000, 2000}, {1000, 1000}, {1000, 3000}, {4000, 1000}, {1000, 250}, {2100, 700}, {3900, 1300}, {7000, 11000}, {1300, 1300}})
 	c.SizeMs, c.SlideMs = ss[0], ss[1]
 	c.MooMs = pick(r, []int64{0, 0, c.SlideMs / 2, c.SizeMs, 3 * c.SizeMs})
 	c.Grouped = r.Intn(3) > 0
